@@ -109,6 +109,9 @@ class Sim13:
         self.guard_failures: list[dict] = []
         self.writes: list[dict] = []
         self.refused: list[dict] = []          # conditional PATCHes of the peering object answered 409
+        self.fault_hits: list[dict] = []       # every request answered by an injected fault of the scenario (t, t_done, who, class, kind)
+        self._patch_class: str | None = None   # the class of the peering PATCH that is being issued right now (see `installed`)
+        self._on_fault: Any = None             # set by `installed`: marks the process_peering_event call a fault hits
         self.toggle_set: dict[int, Any] = {}       # id(toggle) -> (toggle, set)
         self.sets: dict[int, dict] = {}            # id(set) -> {"inc":, "fn":}
         self.dead: set[int] = set()
@@ -118,8 +121,14 @@ class Sim13:
             self.cluster.fault_rules.append(self._mk_fault(f))
 
     def _mk_fault(self, f: dict) -> Any:
-        """{"who": name, "after": t, "method": "PATCH", "res": "peering", "status": 503}: the API refuses such requests"""
+        """{"who": name, "after": t, "method": "PATCH", "res": "peering", "status": 503}: the API refuses such requests.
+        Targeted form (peering PATCHes only): {"who": name, "cls": "keepalive"|"selftouch"|"clean"|"withdraw", "nth": n, "count": k,
+        "kind": "status"|"conn-before"|"conn-after"|"timeout", "status": 409}: the n-th .. (n+k-1)-th REQUEST of that class by that
+        operator (every attempt of kopf's client is a request of its own) fails that way. The class of a request is what it asks
+        for and where it comes from (set by the request wrapper of `installed`): the own record written outside / inside a
+        process_peering_event call, the own record removed, records of others removed."""
         from ..sim import fakeapi
+        seen = {"n": 0}
 
         def rule(req: dict) -> Any:
             if req["who"].split("#")[0].split("-r")[0] != f.get("who"):
@@ -128,7 +137,20 @@ class Sim13:
                 return None
             if f.get("res", "peering") == "peering" and self.peer_path not in req["path"]:
                 return None
-            return fakeapi.Fault("status", int(f.get("status", 503)))
+            kind, status = f.get("kind", "status"), int(f.get("status", 503))
+            if f.get("cls") is not None:
+                cls = self._patch_class
+                if cls != f["cls"]:
+                    return None
+                seen["n"] += 1
+                if not (int(f.get("nth", 1)) <= seen["n"] < int(f.get("nth", 1)) + int(f.get("count", 1))):
+                    return None
+            hit = {"t": self.now(), "t_done": None, "inc": self.inc(), "who": req["who"], "cls": self._patch_class, "kind": kind,
+                   "status": status if kind == "status" else None, "in_call": False}
+            self.fault_hits.append(hit)
+            if self._on_fault is not None:
+                self._on_fault(hit)
+            return fakeapi.Fault(kind, status)
         return rule
 
     # ---- helpers --------------------------------------------------------------------------------
@@ -435,7 +457,8 @@ class Sim13:
         snap = copy.deepcopy
         return {"t_end": t_end, "incs": incs, "toggles": snap(self.toggles), "pcalls": snap([{k: v for k, v in p.items() if not k.startswith("_")} for p in self.pcalls]),
                 "ka": snap(self.ka), "touches": snap(self.touches), "calls": snap(self.calls), "cycles": snap(self.cycles), "marks": snap(self.marks),
-                "peering_history": phist, "kex_history": khist, "requests": reqs, "guard_failures": snap(self.guard_failures), "writes": snap(self.writes), "refused": snap(self.refused)}
+                "peering_history": phist, "kex_history": khist, "requests": reqs, "guard_failures": snap(self.guard_failures), "writes": snap(self.writes), "refused": snap(self.refused),
+                "fault_hits": snap(self.fault_hits)}
 
 
 # =================================================================================================
@@ -662,26 +685,61 @@ def installed(sim: Sim13) -> Iterator[None]:
 
     own_url = f"{sim.peer_path}/{sim.pname}"
 
+    pending_hits: dict[Any, list] = {}    # task -> the injected faults that hit its request in flight
+
+    def on_fault(hit: dict) -> None:
+        rec = cur()
+        if rec is not None:
+            rec["faulted"] = True          # an injected API fault inside this call: `deliver` cannot fail in the model
+            hit["in_call"] = True
+        pending_hits.setdefault(asyncio.current_task(), []).append(hit)
+
+    sim._on_fault = on_fault
+
+    def classify(url: str, payload: Any) -> str:
+        """What a PATCH of the peering resource asks for, and where it comes from."""
+        if not url.split("?")[0].endswith(own_url):
+            return "other"
+        st = payload.get("status") if isinstance(payload, dict) else None
+        me = (sim.by_inc.get(sim.inc()) or {}).get("identity")
+        if not isinstance(st, dict) or not st:
+            return "other"
+        if me in st:
+            return "withdraw" if st[me] is None else ("selftouch" if cur() is not None else "keepalive")
+        return "clean" if all(v is None for v in st.values()) else "other"
+
+    async def o_request_as(cls: str | None, self: Any, method: str, url: str, *a: Any, **k: Any) -> Any:
+        # (the fault rules are evaluated synchronously, before the request's first suspension: the class is theirs to read)
+        sim._patch_class = cls
+        coro = o_request(self, method, url, *a, **k)
+        try:
+            return await coro
+        finally:
+            for hit in pending_hits.pop(asyncio.current_task(), []):
+                hit["t_done"] = sim.now()
+
     async def request(self: Any, method: str, url: str, *a: Any, **k: Any) -> Any:
         name = self.identity.split("#")[0].split("-r")[0]
         if method.upper() == "PATCH" and sim.peer_path in url:
-            is_selftouch = url.split("?")[0].endswith(own_url) and note_patch(k.get("json", a[0] if a else None))
+            payload = k.get("json", a[0] if a else None)
+            cls = classify(url, payload)
+            is_selftouch = url.split("?")[0].endswith(own_url) and note_patch(payload)
             if is_selftouch:
                 selftouching.add(asyncio.current_task())
             try:
-                return await request_peering_patch(self, name, method, url, *a, **k)
+                return await request_peering_patch(self, cls, name, method, url, *a, **k)
             finally:
                 selftouching.discard(asyncio.current_task())
-        return await o_request(self, method, url, *a, **k)
+        return await o_request_as(None, self, method, url, *a, **k)
 
-    async def request_peering_patch(self: Any, name: str, method: str, url: str, *a: Any, **k: Any) -> Any:
+    async def request_peering_patch(self: Any, cls: str, name: str, method: str, url: str, *a: Any, **k: Any) -> Any:
         if True:
             if after.get(name) and not self.dead:
                 # the server applies the PATCH at once, the RESPONSE takes the time: a client cancelled meanwhile has written
                 c = self.cluster
                 saved, c.latency = c.latency, 0
                 try:
-                    resp = await o_request(self, method, url, *a, **k)
+                    resp = await o_request_as(cls, self, method, url, *a, **k)
                 finally:
                     c.latency = saved
                 await asyncio.sleep(after[name])
@@ -691,7 +749,7 @@ def installed(sim: Sim13) -> Iterator[None]:
                 d += slow_self.get(name, 0.0)
             if d:
                 await asyncio.sleep(d)
-        return await o_request(self, method, url, *a, **k)
+        return await o_request_as(cls, self, method, url, *a, **k)
 
     fakeapi.FakeSession.request = request  # type: ignore[assignment]
 
@@ -754,6 +812,7 @@ def installed(sim: Sim13) -> Iterator[None]:
         fakeapi.FakeSession.request = o_request  # type: ignore[assignment]
         fakeapi.FakeSession._serve = o_serve  # type: ignore[assignment]
         aiotasks.guard = o_guard  # type: ignore[assignment]
+        sim._on_fault = None
 
 
 def run_history(sc: dict, wall_limit: float = 60.0) -> dict:
